@@ -243,6 +243,7 @@ impl World {
                 match s.code() {
                     StatusCode::CompactBlockHasUnmatchedTransactionRootWithReconstructedBlock => "unmatched".into(),
                     StatusCode::CompactBlockHasInvalidUncle => "invalid-uncle".into(),
+                    StatusCode::CompactBlockHasInvalidHeader => "invalid-header".into(),
                     c => format!("error-{}", c as u32),
                 }
             }
